@@ -1044,6 +1044,11 @@ def rule_alloc_len_stride(rep, fb, floor=3, name="ALLOC.len-times-stride"):
         for d in find_all(f["body"], lambda k: k[0] == "decl" and k[3] is not None and find_all((k[3],), lambda q: q[0] == "call" and q[1][0] == "fn" and "malloc" in str(q[1][1]) and len(q[2]) == 2)):
             m_ = find_all((d[3],), lambda q: q[0] == "call" and q[1][0] == "fn" and "malloc" in str(q[1][1]) and len(q[2]) == 2)[0]
             size = _noline3(_nocast(m_[2][1]))
+            if size[0] == "var":
+                # `int64_t nbytes = len*stride;` first: look through one local
+                holder = [k for k in find_all(f["body"], lambda k: k[0] == "decl" and k[1] == size[1] and k[3] is not None)]
+                if len(holder) == 1:
+                    size = _noline3(_nocast(holder[0][3]))
             P = d[1]
             for c in find_all(f["body"], lambda k: k[0] == "call" and k[1][0] == "fn" and str(k[1][1]).split("::")[-1] in sigs):
                 kn = str(c[1][1]).split("::")[-1]
